@@ -62,10 +62,27 @@ func registerVx(e *Engine) {
 	e.reg(vxPath+".Bytes", func(ex *Exec, fr *frame, args []Value) Value {
 		name := argStr(ex, args[0])
 		n := ex.concreteInt(args[1], "Bytes n", true)
+		// Aligned groups of four bytes are slices of one 32-bit variable (big-endian),
+		// so that a big-endian word read of them is the variable itself and the solver
+		// can eliminate "stored == computed" equalities. The model is split back into
+		// the per-byte inputs the native side reads.
 		out := make([]Value, n)
-		for i := range out {
-			v := ex.NewInput(fmt.Sprintf("%s[%d]", name, i), 64)
-			out[i] = ex.ts.Extract(v, 7, 0)
+		for i := 0; i < int(n); {
+			if i+4 <= int(n) {
+				var names [4]string
+				for j := 0; j < 4; j++ {
+					names[j] = ex.inputName(fmt.Sprintf("%s[%d]", name, i+j))
+				}
+				w := ex.ts.Var(fmt.Sprintf("%s.w[%d]#%s", name, i/4, names[0][strings.LastIndexByte(names[0], '#')+1:]), 32)
+				ex.byteGroups = append(ex.byteGroups, byteGroup{word: w.Name, bytes: names})
+				for j := 0; j < 4; j++ {
+					out[i+j] = ex.ts.Extract(w, 31-8*j, 24-8*j)
+				}
+				i += 4
+				continue
+			}
+			out[i] = ex.NewInput(fmt.Sprintf("%s[%d]", name, i), 8)
+			i++
 		}
 		return out
 	})
@@ -123,6 +140,11 @@ func registerVx(e *Engine) {
 	e.reg(vxPath+".IteU64", func(ex *Exec, fr *frame, args []Value) Value {
 		return ex.ts.Ite(argTerm(args[0]), argTerm(args[1]), argTerm(args[2]))
 	})
+	for _, n := range []string{"IteU32", "IteI64", "IteInt"} {
+		e.reg(vxPath+"."+n, func(ex *Exec, fr *frame, args []Value) Value {
+			return ex.ts.Ite(argTerm(args[0]), argTerm(args[1]), argTerm(args[2]))
+		})
+	}
 	e.reg(vxPath+".IteBool", func(ex *Exec, fr *frame, args []Value) Value {
 		return ex.ts.Ite(argTerm(args[0]), argTerm(args[1]), argTerm(args[2]))
 	})
